@@ -1,4 +1,5 @@
 import Mhd.Model.TmoLoop
+import Mhd.Model.TmoConv
 import Driver.Common
 open Mhd.Tmo Driver
 
@@ -81,6 +82,24 @@ def parseOp (ws : List String) : Option Op :=
   | ["round"] => some Op.round
   | _ => none
 
+/-- white-box op `conv <c> <x> <max>`: the hint with connection `c` poked to timeout `x` ms / stamp = now,
+    and what the wrappers make of it -/
+def convLine (v : Variant) (d : Daemon) (ws : List String) : Option String :=
+  match ws with
+  | ["conv", a, x, m] =>
+    match a.toNat?, x.toNat?, m.toInt? with
+    | some i, some xv, some cap =>
+      if i < maxConns ∧ (d.conns.contains i || d.cleanup.contains i) ∧ xv < W ∧ -1 ≤ cap ∧ cap ≤ intMax then
+        let d' := d.set i { (d.c i) with tmo := xv, la := d.now }
+        let h := hint v d'
+        let so : Option Nat → String := fun o => match o with
+          | some n => toString n
+          | none => "none"
+        some s!"conv h={so h} ull={so (getTimeoutULL h)} s64={getTimeout64s h} i={getTimeoutI h} ms={getTimeoutMillisec h cap} msi={getTimeoutMillisecInt h cap}"
+      else none
+    | _, _, _ => none
+  | _ => none
+
 def stepLine (s : DSt) (ws : List String) : DSt × List String :=
   match ws with
   | "case" :: rest => ({ v := s.v }, [s!"case {rest.headD "-"}"])
@@ -98,6 +117,11 @@ def stepLine (s : DSt) (ws : List String) : DSt × List String :=
     | none => (s, ["bad-op"])
     | some d =>
       if d.fault then (s, ["fault list-corruption"]) else
+      if ws.head? = some "conv" then
+        match convLine s.v d ws with
+        | some l => (s, [l])
+        | none => (s, ["bad-op"])
+      else
       match parseOp ws with
       | none => (s, ["bad-op"])
       | some o => match step s.v d o with
@@ -115,6 +139,6 @@ def stepLine (s : DSt) (ws : List String) : DSt × List String :=
 def main (args : List String) : IO Unit :=
   let v : Variant := match args with
     | ["asis"] => Variant.asIs
-    | ["fixed"] => ⟨true, true, true, true, Variant.current.savePrev⟩
+    | ["fixed"] => ⟨true, true, true, true, Variant.current.savePrev, true⟩
     | _ => Variant.current
   runEngine ({ v := v } : DSt) stepLine
